@@ -5,7 +5,7 @@ JUDGE = ("judge.J18", "J18.judge")
 JUDGE_IMPORTS = ("From NSQV Require Import model.Cluster.",)
 JUDGE_SCOPE = "N_scope"
 REPO_BINS = [("nsqadmin", "apps/nsqadmin", "")]
-RULE = ("(view) generated clusters of recording stub upstreams - 1-3 nsqlookupds or 1-4 directly configured nsqds, 4 stub nsqds with 1-3 topics and 0-3 channels "
+RULE = ("(view) first, on one generated cluster per mode, EVERY subset of the 4 nsqds failing (x no / one / all nsqlookupds failing) for the counter, topic and channel views and every subset of the 3 nsqlookupds failing for the list views; then generated clusters of recording stub upstreams - 1-3 nsqlookupds or 1-4 directly configured nsqds, 4 stub nsqds with 1-3 topics and 0-3 channels "
         "drawn from small pools (so the same topic/channel lives on several nodes), counters from {0, small, 2^31, 2^40, 2^62, int64 max/min, negative}, clients with and "
         "without hostnames, optional fields present/absent/null (e2e aggregate, clients, zone/region/global counters, a claimed memory_depth), JSON null topics / channels / "
         "clients / producers, fewer tombstone flags than topics, producers that point at nothing, every failing-upstream class (refused, 500, not JSON, wrong JSON type, "
@@ -46,7 +46,7 @@ SEARCH_SCALE = 4
 
 def drivers():
     def view(tier, seed, scale):
-        n = (30 if tier == "quick" else 500) * scale
+        n = (20 if tier == "quick" else 500) * scale
         return ["-profile", "view", "-n", str(n), "-seed", str(seed)]
 
     def addfn(tier, seed, scale):
